@@ -54,11 +54,11 @@ def rangeGuard (rnd : Rat → Rat) (ri : Range) (v : SVal) (t : NumText) : Bool 
   | _, _ => true
 
 theorem specCmp_num (rnd : Rat → Rat) (v : SVal) (op : Op) (t : NumText) (ht : t.wf) (a : Rat)
-    (ha : v.num? = some a) : specCmp v op (mkLit rnd t) = cmpQ op a (litVal rnd t) := by
+    (ha : v.num? rnd = some a) : specCmp rnd v op (mkLit rnd t) = cmpQ op a (litVal rnd t) := by
   simp [specCmp, ha, mkLit_num rnd t ht]
 
 theorem range_sound (rnd : Rat → Rat) (ri : Range) (v : SVal) (op : Op) (t : NumText) (ht : t.wf)
-    (hc : ri.contains rnd v) (hs : specCmp v op (mkLit rnd t) = true) (hg : rangeGuard rnd ri v t = true) :
+    (hc : ri.contains rnd v) (hs : specCmp rnd v op (mkLit rnd t) = true) (hg : rangeGuard rnd ri v t = true) :
     rangeCheck rnd ri op t = true := by
   cases ri with
   | s mn mx =>
@@ -163,9 +163,9 @@ def whereGuard (rnd : Rat → Rat) (v : SVal) (_op : Op) (t : NumText) : Bool :=
 
 theorem where_eq_spec (rnd : Rat → Rat) (hr : RndOk rnd) (v : SVal) (hv : v.wf) (op : Op) (t : NumText) (ht : t.wf)
     (a : Rat) (hf : fieldFloat rnd v = some a) (hg : whereGuard rnd v op t = true) :
-    whereCmp rnd v op t = some (specCmp v op (mkLit rnd t)) := by
+    whereCmp rnd v op t = some (specCmp rnd v op (mkLit rnd t)) := by
   -- the field float is the value, and a fixed point of rnd
-  have hval : v.num? = some a ∧ rnd a = a := by
+  have hval : v.num? rnd = some a ∧ rnd a = a := by
     unfold SVal.wf SVal.wfb at hv
     cases v <;> simp [fieldFloat] at hf <;> simp [whereGuard] at hg
     · rename_i i; subst hf; simp [SVal.num?, hg.2]
